@@ -7,6 +7,7 @@ from hypothesis import strategies as st
 from voluptuous import Schema, Required
 
 from vlib import rivals
+from vlib import forms
 from vlib.core import call_twice, Part, Violation, Discard, watchdog, call
 
 from mitxgraders import SumGrader
@@ -376,7 +377,7 @@ def run_library(spec, rec):
     def go():
         if not spec.get('no_companion') and spec['seed'] % 2 == 0:
             companion()
-        grader = SumGrader(**cfg)
+        grader = forms.make(SumGrader, cfg)
         rivals.after_build(grader)     # vlib/rivals.py: another SumGrader (cut-off 12, even terms only, ...) built and used now
         with watchdog(120):
             # the same submission twice on the same grader object: same outcome (vlib.core.call_twice)
